@@ -19,6 +19,7 @@ from . import terms as T
 from . import npmodel as NPM
 from .terms import R, I, B, Ctx, PathEnd, OutsideSubset, set_ctx, ctx
 from .source import Source
+from . import lets as _lets
 
 # ---------------------------------------------------------------------------
 # parameter types: how to make a symbolic argument, how to sample a numeric one, and how a
@@ -360,7 +361,7 @@ class Engine:
     def namespace(self, module, exclude=()):
         ns = {
             'n': NPM.NP, 'np': NPM.NP, 'degrees': T.degrees,
-            'float': model_float, 'logger': _NullLogger(),
+            'float': model_float, 'logger': _NullLogger(), '__let': _lets.let,
             'CHECKS': _ChecksState(self.checks_activated),
             '__name__': 'xfab.' + module,
         }
@@ -378,6 +379,8 @@ class Engine:
         ns = self.namespace(k.module)
         if extra_ns:
             ns.update(extra_ns)
+        if transform is None and getattr(k, 'let_abstraction', True):
+            transform = _lets.transform
         fn = self.src.compile(k.module, k.name, ns, transform=transform)
         work = [[]]
         results = []
@@ -422,8 +425,12 @@ class Engine:
             saved = T._CTX[0]
             set_ctx(None)
             try:
-                vals = _Rn.sample_inputs(k, _r.Random(12345))
-                k._probe = _Rn.env_of(k, vals) if vals is not None else None
+                rng = _r.Random(12345)
+                k._probe = []
+                for _ in range(40):
+                    vals = _Rn.sample_inputs(k, rng)
+                    if vals is not None:
+                        k._probe.append(_Rn.env_of(k, vals))
             finally:
                 set_ctx(saved)
         return k._probe
